@@ -109,7 +109,10 @@ class SerializedFileBufferedCollection(FileBufferedCollection):
                     # multiple collections pointing to the same file, etc).
                     return
                 else:
-                    blob = self._encode(self._data)
+                    # The buffer entry is shared by all objects bound to this
+                    # file, so it (not this object's possibly stale data)
+                    # determines whether there is anything to write.
+                    blob = cached_data["contents"]
 
                     # If the contents have not been changed since the initial read,
                     # we don't need to rewrite it.
